@@ -22,6 +22,7 @@ RULE = ('a case is (date/time term, operands: datetimes built in yaql or supplie
 ASSUMPTIONS = [
     'float identities use a tolerance of 1 microsecond plus float rounding (relative 1e-12); integer identities are exact',
     'results outside years 1..9999 must raise on the yaql side (any exception class) and are counted separately',
+    'terms that go through a float timestamp may raise within the last second of year 9999 / first of year 1 (float rounding leaves the range)',
     'a datetime whose UTC form lies outside years 1..9999 (within a day of the ends of the range, at a non-zero offset) cannot be '
     'converted between offsets by the host datetime type: an error is accepted for operations on it, a returned value must still be right',
     'only fixed offsets are generated (yaql has no named zones)',
@@ -175,6 +176,13 @@ def check(mon, rec, name, text, vars_, expect, kinds, kind='pair', replay=None):
         else:
             rec.violation('date-result-outside-range-not-refused:%s' % name, '%s returned %r although the result lies outside '
                           'years 1..9999' % (desc, got[1]), rp)
+        return None
+    edge = kind == 'pair' and (want[0] + want[1] > md.MAX_LOCAL - US or want[0] + want[1] < md.MIN_LOCAL + US)
+    if got[0] == 'error' and edge and 'timestamp' in name:
+        # a float number of seconds has a resolution of ~30 us at the ends of the range: within the last second of year
+        # 9999 (first of year 1) rounding may leave the representable range
+        rec.count('agree.float-rounding-at-range-end')
+        rec.count('agree')
         return None
     if got[0] == 'error' and (utc_form_outside(vars_.values()) or (kind == 'pair' and not (md.MIN_LOCAL <= want[0] <= md.MAX_LOCAL))):
         # the host datetime type converts between offsets through the UTC form; when that form lies outside
